@@ -2450,6 +2450,35 @@ CHECKS["C16"] = check_C16
 
 # ----------------------------------------------------------------------------- C17
 
+
+def payload_of_length(rng, ent, T):
+    """a payload conforming to catalogue entry `ent` of exactly T bytes (counts / variable groups / trailing text sized
+    accordingly), or None when the definition cannot reach that size"""
+    d = ent["defn"]
+    if gen.is_cfgval(ent):
+        if (T - 4) % 6:
+            return None
+        two = [v[0] for v in ubc.UBX_CONFIG_DATABASE.values() if gen.tsize(v[1]) == 2 and v[1][0] in "UEIX"]
+        n = (T - 4) // 6
+        if n > len(two):
+            return None
+        hdr = gen.layout(rng, ent, forcerep=0)
+        if hdr is None or len(hdr.payload) != 4:
+            return None
+        return hdr.payload + b"".join(k.to_bytes(4, "little") + bytes(rng.getrandbits(8) for _ in range(2)) for k in rng.sample(two, n))
+    l0 = gen.layout(rng, ent, forcerep=0)
+    l1 = gen.layout(rng, ent, forcerep=1)
+    if l0 is None or l1 is None:
+        return None
+    if "CH" in [v for v in d.values() if isinstance(v, str)]:
+        return l0.payload + b"x" * (T - len(l0.payload)) if len(l0.payload) <= T else None
+    s0, m = len(l0.payload), len(l1.payload) - len(l0.payload)
+    if m <= 0 or (T - s0) % m or T < s0:
+        return None
+    lay = gen.layout(rng, ent, forcerep=(T - s0) // m)
+    return lay.payload if lay is not None and len(lay.payload) == T else None
+
+
 def check_C17(ctx):
     res = Result()
     rng = ctx.rng
@@ -2466,6 +2495,21 @@ def check_C17(ctx):
             meta.append((ent, lay, "setpoll"))
             lines.append(f"parse {ent['mode']} 1 {bf} {f.hex()}")
             meta.append((ent, lay, "true"))
+    # conforming payloads whose length sits on a byte boundary of the length field (256, 512, 768 bytes)
+    class _L:  # minimal stand-in for a Layout: only the payload is used below
+        def __init__(self, p): self.payload = p
+    for ent in ents:
+        for T in (256, 512, 768):
+            p = payload_of_length(rng, ent, T)
+            if p is None:
+                continue
+            res.hist[f"boundary{T}"] += 1
+            f = gen.frame(ent["cls"], ent["id"], p)
+            bf = rng.choice([0, 1])
+            lines.append(f"parse 3 1 {bf} {f.hex()}")
+            meta.append((ent, _L(p), "setpoll"))
+            lines.append(f"parse {ent['mode']} 1 {bf} {f.hex()}")
+            meta.append((ent, _L(p), "true"))
     py = do_corr(res, lines)
     for i in range(0, len(lines), 2):
         ent, lay, _ = meta[i]
@@ -2486,6 +2530,10 @@ def check_C17(ctx):
             continue
         for L in (6, 7, 8, 9, 10, 11, 12, 20):
             il.append("inputmode " + (b"\xb5\x62" + bytes([c, i]) + bytes(L - 4)).hex())
+        if c in (6, 1, 5, 0x0b, 0x13) or n % 64 == 0:
+            # well-formed frames (length field = total - 8) around the byte boundaries of the length field
+            for L in (8, 9, 10, 263, 264, 265, 520, 776):
+                il.append("inputmode " + gen.frame(bytes([c]), bytes([i]), bytes(L - 8)).hex())
     do_corr(res, il)
     for l in il[:3]:
         res.distinct(l)
